@@ -215,7 +215,7 @@ Submit ==                                             \* for task in ready_tasks
 AfterWait == IF mode = "normal" THEN "loop" ELSE IF mode = "drain" THEN "drain_check" ELSE "closing"
 
 (* ---- the outcome of executing or loading t, used by workers and by the serial runner ---- *)
-RunOk(t) == IF uc[t] THEN TRUE ELSE (t \notin FailSet /\ \A d \in Deps(t) : d \in view[t])
+RunOk(t) == IF uc[t] THEN t \notin Range(cfg.badload) ELSE (t \notin FailSet /\ \A d \in Deps(t) : d \in view[t])
 RunVal(t) == IF uc[t] THEN LoadVal(t)
              ELSE <<t, 1, [i \in 1..Len(cfg.deps[t]) |-> dig[cfg.deps[t][i]]]>>
 Saves(t) == ~uc[t] /\ RunOk(t) /\ Cacheable(t)
@@ -509,6 +509,7 @@ Abs == INSTANCE LabRunAbs WITH
   marks <- {}, emitted <- lg.emit, delivered <- lg.del, obsLogs <- (Logs /\ pc \in {"returned", "raised"})
 
 A_C01_Keys == Abs!C01_Keys
+A_C01_Returns == Abs!C01_Returns
 A_C01_Values == Abs!C01_Values
 A_C01_Digest == Abs!C01_Digest
 A_C02_RealResult == Abs!C02_RealResult
